@@ -23,6 +23,7 @@ import PyAbel.Model.RbasexCache
 import PyAbel.Model.BasexCache
 import PyAbel.Model.RbasexBasis
 import PyAbel.Model.SPolyTerm
+import PyAbel.Model.Daun3
 import PyAbel.Gen.Tables
 open PyAbel PyAbel.Proto
 
@@ -57,6 +58,8 @@ def namedMatrix : String → Option (Nat → Nat → Float)
   | "threePointD" => some (fun i j => threePointD i j)
   | "daun1" => some (fun j i => daun1 j i)
   | "daun2" => some (fun j i => daun2 j i)
+  | "daun3p" => some (fun j i => daun3p j i)
+  | "daun3q" => some (fun j i => daun3q j i)
   | _ => none
 
 /-! cache machines: keys cross the protocol as comma-separated naturals -/
@@ -443,6 +446,11 @@ def handle (toks : List String) : String :=
     match namedMatrix name, n.toNat? with
     | some M, some n => showImg ⟨n, n, M⟩
     | _, _ => "bad-op"
+  -- daun3 n  →  _bs_daun(n, 3): value projections plus the smooth-derivative correction (tridiagonal solve)
+  | ["daun3", n] =>
+    match n.toNat? with
+    | some n => showImg ⟨n, n, fun j i => daun3 n j i⟩
+    | none => "bad-op"
   -- solve name n <d…>   →  back substitution  U y = d  with the named upper-triangular matrix
   | "solve" :: name :: n :: rest =>
     match namedMatrix name, n.toNat?, parseFloats rest with
